@@ -706,8 +706,8 @@ func (w *world) unexpectedSuccess(pass, action string, i int, o recvOut, stt *St
 		d := w.diff(pass, "SuccessIsExact", action, i, detail)
 		// deviations of the pinned tree, recorded as observations
 		switch {
-		case it.Dev == "announceFewer" && exact && ann >= 0 && int64(len(sent)) > ann && int64(len(sent))-ann < Chunk:
-			d.Observed = "overshoot: the last frame goes past the announced size; all of it is stored and the transfer is reported as a success with more bytes than announced"
+		case ann >= 0 && o.n > ann && int64(len(o.data)) == o.n:
+			d.Observed = "overshoot: a frame goes past the announced size; all of it is stored and the transfer is reported as a success with more bytes than announced"
 		case it.Dev == "negSize" && len(sent) == 0 && o.n == 0 && len(o.data) == 0:
 			d.Observed = "negative size: a negative announced size followed by the marker is reported as a successful transfer of 0 bytes"
 		}
